@@ -68,6 +68,12 @@ PROJECTS = [
     {"what": "a file that imports itself under an alias", "files": {"main.gdn": "import \"./main.gdn\" as me\npublic fun f(): Int { 1 }\nprintln(string_repr(me::f()))\n"}, "main": "main.gdn", "run_contains": ["1"]},
     {"what": "two files that import each other", "files": {"a.gdn": "import \"./b.gdn\"\npublic fun fa(): Int { 1 }\nprintln(string_repr(fb()))\n", "b.gdn": "import \"./a.gdn\"\npublic fun fb(): Int { fa() + 1 }\n"},
      "main": "a.gdn", "cmds": ["check"]},
+    {"what": "a private fun of a file in a two-file cycle, imported unqualified", "files": {"a.gdn": "import \"./b.gdn\"\npublic fun a_pub(): Int { 1 }\nprintln(string_repr(b_pub()))\nprintln(string_repr(b_secret()))\n", "b.gdn": "import \"./a.gdn\" as a\npublic fun b_pub(): Int { a::a_pub() + 1 }\nfun b_secret(): Int { 7 }\n"},
+     "main": "a.gdn", "run_contains": ["b_secret"], "run_not_contains": ["7"], "check_contains": ["b_secret"]},
+    {"what": "a private fun of a file in a two-file cycle of unqualified imports", "files": {"a.gdn": "import \"./b.gdn\"\npublic fun a_pub(): Int { 1 }\nfun a_secret(): Int { 9 }\nprintln(string_repr(b_secret()))\n", "b.gdn": "import \"./a.gdn\"\npublic fun b_pub(): Int { 2 }\nfun b_secret(): Int { 7 }\nfun peek(): Int { a_secret() }\n"},
+     "main": "a.gdn", "run_contains": ["b_secret"], "run_not_contains": ["7"], "check_contains": ["b_secret"]},
+    {"what": "a private fun reached from a file that is in a cycle with its owner (b -> c -> b), checked from c", "files": {"a.gdn": "import \"./b.gdn\" as b\nprintln(string_repr(b::fb()))\n", "b.gdn": "import \"./c.gdn\" as c\npublic fun fb(): Int { 1 }\nfun b_secret(): Int { 7 }\n", "c.gdn": "import \"./b.gdn\"\npublic fun fc(): Int { b_secret() }\n"},
+     "main": "c.gdn", "cmds": ["check"], "check_contains": ["b_secret"]},
     {"what": "a cycle of three files with aliases", "files": {"a.gdn": "import \"./b.gdn\" as b\npublic fun fa(): Int { 1 }\nprintln(string_repr(b::fb()))\n", "b.gdn": "import \"./c.gdn\" as c\npublic fun fb(): Int { c::fc() + 1 }\n", "c.gdn": "import \"./a.gdn\" as a\npublic fun fc(): Int { 5 }\n"},
      "main": "a.gdn", "cmds": ["check"]},
     {"what": "the same missing file imported twice", "files": {"main.gdn": "import \"./nope.gdn\"\nimport \"./nope.gdn\" as n\nprintln(\"x\")\n"}, "main": "main.gdn", "cmds": ["check"], "check_contains": ["No such file"]},
